@@ -816,6 +816,24 @@ def run(sf, spec):
     }
 
 
+def run_plain_thread(sf, K, call, pre=()):
+    """The call in a thread of its own with all instrumentation removed: tells a library whose
+    behaviour depends on the calling thread (a violation) from a harness that perturbs results."""
+    from .calls import outcome, parse_arg
+    for co in _state.get("codes", ()):
+        mon.set_local_events(TOOL, co, 0)
+    mon.set_events(TOOL, 0)
+    warnings.simplefilter("ignore")
+    apply_table(sf, K)
+    for lit in pre:
+        outcome(sf.set_semantic_constraints, parse_arg(lit))
+    box = []
+    t = threading.Thread(target=lambda: box.append(do_call(sf, tuple(call))[:2]), daemon=True)
+    t.start()
+    t.join(60.0)
+    return box[0] if box else ("err", "Hang")
+
+
 def run_alone(sf, K, call, gran="instr", pre=()):
     """One call on one simulated thread, no switching: its step count (for the
     PCT change points and the liveness budget) and its result (must equal the
